@@ -110,6 +110,20 @@ def _bin(a, b, f):
     return f(a, b)
 
 
+class _Soft:
+    """context proxy for the literal fall-back rules: a form that is not one of the accepted spellings is `not recognised`, not a violation
+    (the deciding analysis, E9, could not derive the map; comparing one spelling must not raise an alarm on an equivalent one)"""
+
+    def __init__(self, ctx):
+        self._ctx = ctx
+
+    def __getattr__(self, k):
+        return getattr(self._ctx, k)
+
+    def violation(self, rule, relpath, fn, stmt, why, line=None, site=None, **kw):
+        self._ctx.unrecognised(rule, site or f"{fn}: {stmt}"[:80], f"not one of the accepted spellings: {why}"[:200])
+
+
 def run(pm, ctx):
     u = pm.unit(D)
     ci = pm.classes.get("Douglas")
@@ -283,8 +297,8 @@ def run(pm, ctx):
             else:
                 ctx.unrecognised("C15-c", site, detail)
     else:
-        o = expect_assign(ctx, "C15-c", u, "Douglas._leaf_binning", lb, "order", ["np.argsort(cut_points)"], "Douglas._leaf_binning: order", "the cuts are not sorted in ascending order")
-        sc = expect_assign(ctx, "C15-c", u, "Douglas._leaf_binning", lb, "sorted_cut_points", ["cut_points[order]"], "Douglas._leaf_binning: sorted cuts", "the biases are not built from the sorted cuts")
+        o = expect_assign(_Soft(ctx), "C15-c", u, "Douglas._leaf_binning", lb, "order", ["np.argsort(cut_points)"], "Douglas._leaf_binning: order", "the cuts are not sorted in ascending order")
+        sc = expect_assign(_Soft(ctx), "C15-c", u, "Douglas._leaf_binning", lb, "sorted_cut_points", ["cut_points[order]"], "Douglas._leaf_binning: sorted cuts", "the biases are not built from the sorted cuts")
     # slopes of the bin logits: consecutive bins must differ by exactly x, so that (with the cumulative biases) bin k beats bin k-1 iff
     # x exceeds the k-th smallest cut: slopes 1, 2, ..., n+1 (any start, unit step)
     wdef = [s_ for s_ in ast.walk(lb) if isinstance(s_, ast.Assign) and norm_src(s_.targets[0]) == "W"]
@@ -323,7 +337,7 @@ def run(pm, ctx):
             bdef[0], bdef[0].value, ["np.cumsum(np.concatenate([np.zeros(1), -sorted_cut_points])).reshape((1, -1))"]):
         ctx.ok("C15-c", site, "b_k = -(sum of the k smallest cuts)")
     else:
-        ctx.violation("C15-c", u.relpath, "Douglas._leaf_binning", norm_src(bdef[0]), "the bin biases are not the cumulative sums of the negated sorted cut points", line=bdef[0].lineno, site=site)
+        _Soft(ctx).violation("C15-c", u.relpath, "Douglas._leaf_binning", norm_src(bdef[0]), "the bin biases are not the cumulative sums of the negated sorted cut points", line=bdef[0].lineno, site=site)
     if len(rets) == 1 and isinstance(rets[0].value, ast.Tuple) and len(rets[0].value.elts) == 2:
         if e9fw is not None and e9fw["order"] is not None:
             if e9fw["order"].exp == e9fw["bias"].in_perm:
@@ -360,8 +374,8 @@ def run(pm, ctx):
     else:
         ctx.violation("C15-c", u.relpath, "Douglas._compute_grads", norm_src(back[0]) if back else "cut_grad", "the gradient computed for the sorted cuts is not mapped "
                       "back by the inverse of the sorting permutation", line=cg.lineno, site=site)
-    expect_assign(ctx, "C15-c", u, "Douglas._compute_grads", cg, "bias_grad", ["bin_grad.sum(0)[1:]"], "Douglas._compute_grads: bias gradient", "the gradient of the constant first bias is not dropped")
-    expect_assign(ctx, "C15-c", u, "Douglas._compute_grads", cg, "cumsum_grad", ["-np.cumsum(bias_grad[::-1])[::-1]"], "Douglas._compute_grads: cumulative bias", "the back-propagation "
+    expect_assign(_Soft(ctx), "C15-c", u, "Douglas._compute_grads", cg, "bias_grad", ["bin_grad.sum(0)[1:]"], "Douglas._compute_grads: bias gradient", "the gradient of the constant first bias is not dropped")
+    expect_assign(_Soft(ctx), "C15-c", u, "Douglas._compute_grads", cg, "cumsum_grad", ["-np.cumsum(bias_grad[::-1])[::-1]"], "Douglas._compute_grads: cumulative bias", "the back-propagation "
                   "through b = cumsum(-sorted cuts) is not the negated reverse cumulative sum")
     expect_assign(ctx, "C15-c", u, "Douglas._infer", inf, "all_orders", ["[x[1] for x in all_binnings_results]"], "Douglas._infer: retained orders", "the retained orders are not those returned by _leaf_binning")
     return _c15d(pm, ctx, u, fa)
